@@ -48,7 +48,7 @@ Lemma harmonic_uniform_weights : forall fs cot k j w,
 Proof. intros fs cot k j w H. eapply nbrs_uniform. exact H. Qed.
 
 (* ------------------------------------------------------------------ what a run's certificate establishes *)
-Lemma fold_free_partial : forall fs use_cotan cot free bnd Ub Vb D NU NV,
+Lemma fold_free_checker_soundness_partial : forall fs use_cotan cot free bnd Ub Vb D NU NV,
   let T := lap_triplets fs use_cotan cot in
   check_cert_with rhs_U T free bnd (comp_list U_border_data [] [] Ub Vb) D NU = true ->
   check_cert_with rhs_V T free bnd (comp_list V_border_data [] [] Ub Vb) D NV = true ->
